@@ -45,6 +45,28 @@ THEOREMS = [
     (M, "C20.kt_contains_other", "unhashable / int / slice are never members (lines 34-35 swallow the dict's TypeError); an entity "
                                  "object is a member iff it is an element"),
     (M, "C20.kt_index_slice", "int indexing and slicing bypass the map; slices and sums are plain tuples"),
+    # round 5: interaction histories over a heap of objects with explicit aliasing
+    (M, "C20.keys_fresh", "the list made of kt.keys() is a NEW cell holding the keys in file order; no AddRemove refers to it and "
+                          "the call leaves every other object as it was"),
+    (M, "C20.keys_fresh_each_call", "two calls of keys() give two different lists with the same contents"),
+    (M, "C20.set_left_keys_fresh", "the list set_left(kt.keys()) stores is a new one: only that attribute refers to it"),
+    (M, "C20.set_aliases", "set_left(list)/set_right(list) keep the caller's list BY REFERENCE (no copy) - recorded behaviour"),
+    (M, "C20.addremove_readonly", "AddRemove(), set_left, set_right and iteration never change the contents of any list, entity list "
+                                  "or KeyedTuple"),
+    (M, "C20.heap_cell_spec", "after ANY history a list holds its old contents with exactly the caller's own mutations of it applied"),
+    (M, "C20.heap_iterate_spec", "iterating yields the closed form of the CURRENT contents of the two lists referred to (TypeError "
+                                 "while a side is None) and leaves the heap unchanged"),
+    (M, "C20.heap_iterate_history", "at any point of any history an iteration observes the closed form of what the two lists referred "
+                                    "to hold at that moment"),
+    (M, "C20.heap_reachable_wf", "every heap reachable from the empty one is well formed (no dangling attribute; every KeyedTuple is "
+                                 "the KeyedTuple of its own elements)"),
+    (M, "C20.heap_newkt_spec", "KeyedTuple(...) creates a new object from the elements its argument has NOW and changes nothing else"),
+    (M, "C20.heap_newkt_copies", "what the caller does to its list after KeyedTuple(list) never reaches the object"),
+    (M, "C20.heap_kt_forever", "in every interaction history every query on a KeyedTuple answers the closed form over the elements it "
+                               "was built from - whatever was handed to an AddRemove, mutated, iterated or built in between"),
+    (M, "C20.heap_kt_lists_forever", "the same for list(kt.keys()) / values() / items() taken at any later point"),
+    (M, "C20.heap_content_flow", "ar.set_left(ref.keys()); ar.set_right(l10n.keys()); list(ar); then a query on either file: the diff is "
+                                 "the closed form of the two key sequences and the queries are answered as if nothing had happened"),
 ]
 PARTIAL = []
 LEVEL_TEXT = ("Lean 4 theorems over an executable transliteration of the AddRemove object (set_left/set_right/__iter__ as a state "
@@ -53,7 +75,11 @@ LEVEL_TEXT = ("Lean 4 theorems over an executable transliteration of the AddRemo
               "KeyedTuple answer in every query sequence equals a closed form over the entity list (lookup = last entity, items = "
               "zip(keys, values)); the result is equivariant under injective key renamings (hash independence); the model is tied "
               "to the Python by exhaustive small + random differential runs of single diffs, operation histories and query "
-              "sequences, and an independent oracle checks the property on the implementation, also under other PYTHONHASHSEEDs")
+              "sequences, and an independent oracle checks the property on the implementation, also under other PYTHONHASHSEEDs; "
+              "round 5: a heap model with explicit references (list = cell, AddRemove attribute = reference, KeyedTuple = values) in "
+              "which 'keys() hands out a fresh list', 'AddRemove never changes a list', 'a list changes only by its owner's "
+              "mutations' and 'every KeyedTuple answer in every interaction history is the closed form over the elements it was "
+              "built from' are theorems, tied by interaction histories on the real objects")
 LEVEL_NOTE = ("trusted: Lean kernel; hand-written model of dict/sorted (association list + merge sort) validated by correspondence; "
               "the duplicate-free closed form `spec` needs Nodup (negation witnesses), the general one `specD` does not; "
               "tuple.__getitem__/__contains__/slicing and generator laziness are builtin behaviour, modelled and tied by "
@@ -64,10 +90,14 @@ TRUSTED = [
     "hand-written models CLModel/Compare/AddRemoveObj.lean (object state machine, tied by `c20.sm`; closed form, tied by `c20.specd`) "
     "and CLModel/Compare/KeyedTuple.lean (object with __map, tuple primitives; tied by `c20.kt`)",
     "Python dict/sorted modelled as association list + stable merge sort",
+    "hand-written model CLModel/Compare/C20Heap.lean of the references between caller lists, KeyedTuples and AddRemoves (list = heap "
+    "cell, AddRemove attribute = reference, KeyedTuple = values only; tied by `c20.heap`)",
 ]
 ASSUMPTIONS = ["keys are hashable values with value equality (str or tuple), as produced by the parsers",
                "keys are never ints, slices or entity objects (KeyedTuple model)",
-               "callers do not mutate a list after passing it to set_left/set_right (the object aliases list arguments)"]
+               "set_left(list)/set_right(list) alias the caller's list: a caller who mutates it afterwards changes the next diff "
+               "(modelled since round 5: Src.ref, theorem set_aliases; the oracle accepts the diff of the current OR of the "
+               "handed-over contents, the correspondence pins the current ones)"]
 
 
 def impl_ar(left, right):
@@ -289,8 +319,11 @@ def kt_build(ks, kind, how):
 def show_val(r):
     if isinstance(r, E):
         return "E%d" % r.n
-    if isinstance(r, tuple):
-        return "%s[%s]" % (type(r).__name__, ",".join(str(e.n) for e in r))
+    if isinstance(r, (tuple, list)):
+        try:
+            return "%s[%s]" % (type(r).__name__, ",".join(str(e.n) for e in r))
+        except AttributeError:
+            return "%s[?]" % type(r).__name__
     return "?%s" % type(r).__name__
 
 
@@ -406,6 +439,20 @@ def gen_kt_cases(ctx, rng):
         base = kt_base_queries(len(ks), nk)
         qs = [rng.choice(base) for _ in range(rng.randrange(5, 40))]
         cases.append((ks, qs))
+    # round 5: the FIRST queries on a fresh instance - every ordered pair (thorough: triple) of queries of every kind, then a
+    # lookup and a membership test of every key and the order questions (an index filled on demand must not depend on what
+    # was asked first, e.g. a membership test before the first keyed lookup)
+    firsts = ["ck0", "ck1", "ck2", "gk0", "gk1", "gk2", "K", "I", "V", "gi0", "cu", "ce0:0"]
+    tail = ["gk0", "gk1", "gk2", "gk3", "ck0", "ck1", "ck2", "ck3", "K", "I"]
+    small = [ks for n in range(1, 4) for ks in itertools.product(range(3), repeat=n)] + list(itertools.product(range(2), repeat=4))
+    for ks in small:
+        for pre in itertools.product(firsts, repeat=2):
+            cases.append((list(ks), list(pre) + tail))
+    if ctx.tier != "quick":
+        for ks in small:
+            if len(set(ks)) < len(ks):
+                for pre in itertools.product(firsts, repeat=3):
+                    cases.append((list(ks), list(pre) + tail))
     return [(ks, qs, hows[i % 4]) for i, (ks, qs) in enumerate(cases)]
 
 
@@ -420,6 +467,9 @@ def hs_eval(batch):
         elif c[0] == "sm":
             _, ops, kind = c
             out.append(" ".join(canon_diff(o) for o in impl_sm(ops, kind)))
+        elif c[0] == "hp":
+            _, toks, kind = c
+            out.append(" ".join(o for _, o in impl_heap(toks, kind)))
         else:
             _, ks, qs, kind, how = c
             out.append(" ".join(impl_kt(ks, qs, kind, how)))
@@ -429,7 +479,523 @@ def hs_eval(batch):
 HASHSEEDS = ["1", "2", "4242", "random"]
 
 
-def run_round4(ctx, out, rng, ar_cases):
+# ===================================================================== round 5: interaction histories over a heap of objects
+# Token language (shared with the driver op `c20.heap`, see lean/CLModel/Ops/C20.lean).  Objects are numbered per kind in
+# order of creation: key lists L (nl, kl, and the list an AddRemove made of a non-list argument = ar.left / ar.right),
+# entity lists M (ne, vl, il), KeyedTuples T (kt:...), AddRemoves A (ar).
+OBSERVING = ("kl", "vl", "il", "it", "rl", "re")
+
+
+def _as_list(x):
+    """the idiom of AddRemove.set_left itself: keep a list, copy anything else"""
+    return x if isinstance(x, list) else list(x)
+
+
+def _show_keys(L):
+    return "keys[%s]" % ",".join(str(key_id(k)) for k in L)
+
+
+def _show_ents(M, pairs):
+    return "ents[%s]" % ",".join(str((v[1] if pairs else v).n) for v in M)
+
+
+def impl_heap(toks, kind):
+    """one interaction history on the REAL objects; returns [(position, observation)] for the observing operations
+    (and for any operation that raised)"""
+    from compare_locales.keyedtuple import KeyedTuple
+    from compare_locales.compare.utils import AddRemove
+    Ls, Ms, Ts, As, ents = [], [], [], [], []
+
+    def new_ent(k):
+        e = E(mk_key(int(k), kind), len(ents))
+        ents.append(e)
+        return e
+
+    def keys_of(body):
+        return [int(x) for x in body.split(",")] if body else []
+
+    def mutate(lst, m, mk):
+        if m[0] == "a":
+            lst.append(mk(m[1:]))
+        elif m[0] == "i":
+            lst.insert(0, mk(m[1:]))
+        elif m == "p":
+            if lst:
+                lst.pop()
+        elif m == "r":
+            lst.reverse()
+        else:
+            lst.clear()
+
+    obs = []
+    for pos, tok in enumerate(toks):
+        try:
+            h = tok[:2]
+            if tok == "ar":
+                As.append(AddRemove())
+            elif h == "nl":
+                Ls.append([mk_key(k, kind) for k in keys_of(tok[3:])])
+            elif h == "ne":
+                Ms.append([[new_ent(k) for k in keys_of(tok[3:])], False])
+            elif h == "ml":
+                r, m = tok[2:].split(":", 1)
+                mutate(Ls[int(r)], m, lambda k: mk_key(int(k), kind))
+            elif h == "me":
+                r, m = tok[2:].split(":", 1)
+                M, pairs = Ms[int(r)]
+                mutate(M, m, (lambda k: (lambda e: (e.key, e))(new_ent(k))) if pairs else new_ent)
+            elif h == "kt":
+                body = tok[3:]
+                c = body[0]
+                Ts.append(None)
+                if c in "ltg":
+                    ks = keys_of(body[2:])
+                    if c == "l":
+                        kt = KeyedTuple([new_ent(k) for k in ks])
+                    elif c == "t":
+                        kt = KeyedTuple(tuple(new_ent(k) for k in ks))
+                    else:
+                        kt = KeyedTuple(new_ent(k) for k in ks)
+                elif c == "m":
+                    M, pairs = Ms[int(body[1:])]
+                    kt = KeyedTuple(v for _, v in M) if pairs else KeyedTuple(M)
+                elif c == "v":
+                    kt = KeyedTuple(Ts[int(body[1:])].values())
+                elif c == "i":
+                    kt = KeyedTuple(v for _, v in Ts[int(body[1:])].items())
+                else:
+                    t, u = body[1:].split(",")
+                    kt = KeyedTuple(Ts[int(t)] + Ts[int(u)])
+                Ts[-1] = kt
+            elif h in ("sl", "sr"):
+                a, src = tok[2:].split(":", 1)
+                ar = As[int(a)]
+                setter = ar.set_left if h == "sl" else ar.set_right
+                if src[0] == "L":
+                    setter(Ls[int(src[1:])])                      # the caller's list, BY REFERENCE
+                else:
+                    Ls.append(None)
+                    if src[0] == "K":
+                        setter(Ts[int(src[1:])].keys())           # what compare/content.py and merge.py do
+                    elif src[0] == "t":
+                        setter(tuple(mk_key(k, kind) for k in keys_of(src[2:])))
+                    else:
+                        setter(mk_key(k, kind) for k in keys_of(src[2:]))
+                    Ls[-1] = ar.left if h == "sl" else ar.right   # the public attribute: the list the object made
+            elif h == "kl":
+                Ls.append(None)
+                Ls[-1] = _as_list(Ts[int(tok[2:])].keys())
+                obs.append((pos, _show_keys(Ls[-1])))
+            elif h == "vl":
+                Ms.append([None, False])
+                Ms[-1][0] = _as_list(Ts[int(tok[2:])].values())
+                obs.append((pos, _show_ents(Ms[-1][0], False)))
+            elif h == "il":
+                Ms.append([None, True])
+                Ms[-1][0] = _as_list(Ts[int(tok[2:])].items())
+                obs.append((pos, "items[%s]" % ",".join("%d:%d" % (key_id(k), v.n) for k, v in Ms[-1][0])))
+            elif h == "it":
+                try:
+                    obs.append((pos, canon_diff(list(As[int(tok[2:])]))))
+                except Exception as e:      # noqa
+                    obs.append((pos, type(e).__name__))
+            elif h == "rl":
+                obs.append((pos, _show_keys(Ls[int(tok[2:])])))
+            elif h == "re":
+                M, pairs = Ms[int(tok[2:])]
+                obs.append((pos, _show_ents(M, pairs)))
+            elif tok[0] == "q":
+                t, q = tok[1:].split(":", 1)
+                obs.append((pos, kt_ask(Ts[int(t)], ents, q, kind, pos)))
+            else:
+                raise ValueError("unknown token " + tok)
+        except Exception as e:      # noqa
+            obs.append((pos, "!" + type(e).__name__))
+    return obs
+
+
+def kt_expect(es, q):
+    """what the property promises for query `q` on a KeyedTuple built from the entities `es` = [(key id, entity id)]:
+    ("=", answer) | ("absent",) | ("values", ids) | None when the property does not speak"""
+    n = len(es)
+    if q.startswith("gk"):
+        idx = [i for k, i in es if k == int(q[2:])]
+        return ("=", "E%d" % idx[-1]) if idx else ("absent",)
+    if q.startswith("ck"):
+        return ("=", "true" if any(k == int(q[2:]) for k, _ in es) else "false")
+    if q.startswith("gi"):
+        i = int(q[2:])
+        return ("=", "E%d" % es[i % n][1] if -n <= i < n else "IndexError")
+    if q == "K":
+        return ("=", "keys[%s]" % ",".join(str(k) for k, _ in es))
+    if q == "I":
+        return ("=", "items[%s]" % ",".join("%d:%d" % (k, i) for k, i in es))
+    if q == "T":
+        return ("=", "tuple[%s]" % ",".join(str(i) for _, i in es))
+    if q == "V":
+        return ("values", "[%s]" % ",".join(str(i) for _, i in es))
+    if q == "N":
+        return ("=", str(n))
+    return None
+
+
+def judge_answer(es, q, a):
+    exp = kt_expect(es, q)
+    if exp is None:
+        return None
+    if exp[0] == "=" and a != exp[1]:
+        return "%s gave %s, expected %s" % (q, a, exp[1])
+    if exp[0] == "absent" and (a[:1] == "E" and a[1:].isdigit() or "[" in a):
+        return "lookup of an absent key returned %s" % a
+    if exp[0] == "values" and a[a.find("["):] != exp[1]:
+        return "values() gave %s, expected the entities %s" % (a, exp[1])
+    return None
+
+
+def parse_diff(canon):
+    """inverse of canon_diff (int keys)"""
+    inv = {"e": "equal", "d": "delete", "a": "add"}
+    body = canon[1:-1]
+    return [(inv[x[0]], int(x[1:])) for x in body.split(",")] if body else []
+
+
+def oracle_heap(toks, kind, obs):
+    """what the property promises in an interaction history, by construction: every KeyedTuple answer is the closed form over
+    the entities the object was BUILT from (forever); every diff is the diff of the two sequences (the current contents of the
+    lists referred to, or what they held when handed over - the property does not say which) and equals a fresh AddRemove's;
+    returns None or (position, message)"""
+    from compare_locales.keyedtuple import KeyedTuple
+    seen = dict(obs)
+    Ls, Ms, Ts, As = [], [], [], []     # shadow: lists of key ids / lists of (key id, entity id) / tuples of the same / dicts
+    nid = [0]
+    internal, touched = set(), set()    # ids of shadow lists an AddRemove made itself (ar.left of a non-list argument) / of those
+    #                                     the caller mutated afterwards: what such a list holds is the object's own business, so a
+    #                                     diff that depends on one is left to the correspondence
+
+    def new_ents(ks):
+        out = []
+        for k in ks:
+            out.append((k, nid[0]))
+            nid[0] += 1
+        return out
+
+    def keys_of(body):
+        return [int(x) for x in body.split(",")] if body else []
+
+    def mutate(lst, m, mk):
+        if m[0] == "a":
+            lst.append(mk(m[1:]))
+        elif m[0] == "i":
+            lst.insert(0, mk(m[1:]))
+        elif m == "p":
+            if lst:
+                lst.pop()
+        elif m == "r":
+            lst.reverse()
+        else:
+            lst.clear()
+
+    for pos, tok in enumerate(toks):
+        h = tok[:2]
+        got = seen.get(pos)
+        if tok == "ar":
+            As.append({"L": None, "R": None, "L0": None, "R0": None})
+        elif h == "nl":
+            Ls.append(keys_of(tok[3:]))
+        elif h == "ne":
+            Ms.append(new_ents(keys_of(tok[3:])))
+        elif h == "ml":
+            r, m = tok[2:].split(":", 1)
+            mutate(Ls[int(r)], m, int)
+            if id(Ls[int(r)]) in internal:
+                touched.add(id(Ls[int(r)]))
+        elif h == "me":
+            r, m = tok[2:].split(":", 1)
+            mutate(Ms[int(r)], m, lambda k: new_ents([int(k)])[0])
+        elif h == "kt":
+            body = tok[3:]
+            c = body[0]
+            if c in "ltg":
+                Ts.append(tuple(new_ents(keys_of(body[2:]))))
+            elif c == "m":
+                Ts.append(tuple(Ms[int(body[1:])]))          # the contents NOW
+            elif c in "vi":
+                Ts.append(Ts[int(body[1:])])
+            else:
+                t, u = body[1:].split(",")
+                Ts.append(Ts[int(t)] + Ts[int(u)])
+        elif h in ("sl", "sr"):
+            a, src = tok[2:].split(":", 1)
+            if src[0] == "L":
+                cell = Ls[int(src[1:])]                       # alias: the very same shadow list
+            else:
+                cell = [k for k, _ in Ts[int(src[1:])]] if src[0] == "K" else keys_of(src[2:])
+                Ls.append(cell)
+                internal.add(id(cell))
+            side = "L" if h == "sl" else "R"
+            As[int(a)][side] = cell
+            As[int(a)][side + "0"] = list(cell)
+        elif h in ("kl", "vl", "il"):
+            es = Ts[int(tok[2:])]
+            if h == "kl":
+                Ls.append([k for k, _ in es])
+                exp = "keys[%s]" % ",".join(str(k) for k, _ in es)
+            elif h == "vl":
+                Ms.append(list(es))
+                exp = "ents[%s]" % ",".join(str(i) for _, i in es)
+            else:
+                Ms.append(list(es))
+                exp = "items[%s]" % ",".join("%d:%d" % e for e in es)
+            if got != exp:
+                return pos, "%s() of T%s gave %s, expected %s (file order with duplicates)" % (
+                    {"kl": "keys", "vl": "values", "il": "items"}[h], tok[2:], got, exp)
+        elif h == "it":
+            o = As[int(tok[2:])]
+            if o["L"] is None or o["R"] is None:
+                if got != "TypeError":
+                    return pos, "iteration with an unset side gave %r instead of raising TypeError" % (got,)
+                continue
+            if id(o["L"]) in touched or id(o["R"]) in touched:
+                continue
+            if got is None or not got.startswith("["):
+                return pos, "iteration raised %s" % got
+            res = parse_diff(got)
+            ok, first = False, None
+            # the sequences the diff may be about: what the lists hold NOW (the unchanged code keeps a list argument by
+            # reference) or what they held when handed over (the property does not say which)
+            for l in ([o["L"]] + ([o["L0"]] if o["L0"] != o["L"] else [])):
+                for r in ([o["R"]] + ([o["R0"]] if o["R0"] != o["R"] else [])):
+                    bad = oracle_diff(l, r, res)
+                    if bad is None:
+                        fresh = canon_diff(impl_ar([mk_key(i, kind) for i in l], [mk_key(i, kind) for i in r]))
+                        if fresh != got:
+                            bad = "iteration differs from a fresh AddRemove with the same sides: %s vs %s" % (got, fresh)
+                    if bad is None:
+                        ok = True
+                        break
+                    first = first or "%s (left=%s right=%s)" % (bad, l, r)
+                if ok:
+                    break
+            if not ok:
+                return pos, first
+        elif tok[0] == "q":
+            t, q = tok[1:].split(":", 1)
+            es = Ts[int(t)]
+            bad = judge_answer(es, q, got)
+            if bad:
+                return pos, "T%s built from entities %s: %s" % (t, list(es), bad)
+            if q[1:2] != "e" and got is not None:
+                ents = [E(mk_key(k, kind), i) for k, i in es]
+                fresh = kt_ask(KeyedTuple(ents), [], q, kind, pos)
+                if fresh != got:
+                    return pos, "T%s: %s answered %s, a fresh KeyedTuple of the same entities answers %s" % (t, q, got, fresh)
+    return None
+
+
+HEAP_SUFFIX = ["q0:K", "q0:I", "q0:V", "q0:T", "q0:N", "q0:gk0", "q0:gk1", "q0:ck0", "q0:ck1", "q0:gi0", "q0:gi-1",
+               "kl0", "vl0", "il0", "q1:K", "q1:I", "q1:gk0", "q1:gk1"]
+
+
+def heap_alphabet():
+    """interaction operations around T0 / T1 / A0; `*` stands for the most recently created L resp. M"""
+    return ["sl0:K0", "sr0:K0", "sr0:K1", "sl0:K1", "kl0", "sl0:L*", "sr0:L*", "it0", "ml*:p", "ml*:a7", "ml*:r", "ml*:c", "ml*:i1",
+            "vl0", "il0", "me*:p", "me*:a7", "me*:r", "kt:v0", "kt:i0", "kt:m*", "q0:ck0", "q0:ck1", "q0:gk0", "q0:K", "q0:I"]
+
+
+def heap_instantiate(prefix, mids, with_suffix=True):
+    """resolve `*`, append the closing queries (on every KeyedTuple and list that exists); None if a `*` has no referent"""
+    nL = nM = 0
+    nT = sum(1 for t in prefix if t.startswith("kt:"))
+    toks = list(prefix)
+    for t in prefix:
+        if t[:2] == "nl":
+            nL += 1
+        elif t[:2] == "ne":
+            nM += 1
+    for m in mids:
+        if "L*" in m or m.startswith("ml*"):
+            if not nL:
+                return None
+            m = m.replace("*", str(nL - 1))
+        elif m.startswith("me*") or m == "kt:m*":
+            if not nM:
+                return None
+            m = m.replace("*", str(nM - 1))
+        toks.append(m)
+        h = m[:2]
+        if h == "kl" or (h in ("sl", "sr") and ":L" not in m):
+            nL += 1
+        elif h in ("vl", "il"):
+            nM += 1
+        elif h == "kt":
+            nT += 1
+    if with_suffix:
+        toks += ["it0"] + HEAP_SUFFIX
+        for t in range(2, nT):
+            toks += ["q%d:K" % t, "q%d:I" % t, "q%d:gk0" % t]
+        toks += ["rl%d" % r for r in range(nL)] + ["re%d" % r for r in range(nM)] + ["it0"]
+    return toks
+
+
+def gen_heap_random(rng, maxlen):
+    nsym = rng.choice([2, 3, 4])
+    n = {"L": 0, "M": 0, "T": 0, "A": 0, "E": 0}
+    toks = []
+    sides = []          # per AddRemove: which sides have been set
+
+    def ks(lo=0):
+        return [rng.randrange(nsym) for _ in range(rng.randrange(lo, 6))]
+
+    def kstr(x):
+        return ",".join(map(str, x))
+
+    def mut():
+        return rng.choice(["a%d" % rng.randrange(nsym + 1), "i%d" % rng.randrange(nsym + 1), "p", "p", "r", "c"])
+
+    def query():
+        x = rng.random()
+        if x < 0.45:
+            return rng.choice(["K", "I", "V", "T", "N"])
+        if x < 0.8:
+            return rng.choice(["gk", "ck"]) + str(rng.randrange(nsym + 1))
+        if x < 0.9:
+            return "gi%d" % rng.randrange(-6, 7)
+        return rng.choice(["gs:", "gs1:", "gs:-1", "gs-2:", "gu", "cu", "ci0", "ce%d:%d" % (rng.randrange(nsym), rng.randrange(n["E"] + 2)),
+                           "ge0:0"])
+
+    for _ in range(rng.randrange(5, maxlen + 1)):
+        w = [("ktl", 2.0 if n["T"] < 4 else 0.3), ("ktd", 1.2 if n["T"] else 0), ("ktm", 1.0 if n["M"] else 0),
+             ("ar", 1.5 if n["A"] < 3 else 0.1), ("nl", 0.8), ("ne", 0.6),
+             ("setK", 3.0 if n["A"] and n["T"] else 0), ("setL", 2.0 if n["A"] and n["L"] else 0), ("setlit", 0.7 if n["A"] else 0),
+             ("it", 3.0 if n["A"] else 0), ("kvi", 2.0 if n["T"] else 0), ("ml", 2.5 if n["L"] else 0), ("me", 1.2 if n["M"] else 0),
+             ("rl", 0.8 if n["L"] else 0), ("re", 0.4 if n["M"] else 0), ("q", 6.0 if n["T"] else 0)]
+        op = rng.choices([a for a, _ in w], [b for _, b in w])[0]
+        if op == "ktl":
+            x = ks()
+            toks.append("kt:%s:%s" % (rng.choice("ltg"), kstr(x)))
+            n["T"] += 1
+            n["E"] += len(x)
+        elif op == "ktd":
+            c = rng.choice("vic")
+            toks.append("kt:%s%d" % (c, rng.randrange(n["T"])) + (",%d" % rng.randrange(n["T"]) if c == "c" else ""))
+            n["T"] += 1
+        elif op == "ktm":
+            toks.append("kt:m%d" % rng.randrange(n["M"]))
+            n["T"] += 1
+        elif op == "ar":
+            toks.append("ar")
+            n["A"] += 1
+            sides.append(set())
+        elif op == "nl":
+            toks.append("nl:" + kstr(ks()))
+            n["L"] += 1
+        elif op == "ne":
+            x = ks()
+            toks.append("ne:" + kstr(x))
+            n["M"] += 1
+            n["E"] += len(x)
+        elif op in ("setK", "setL", "setlit"):
+            a = rng.randrange(n["A"])
+            side = rng.choice(["sl", "sr"])
+            if len(sides[a]) == 1 and rng.random() < 0.8:
+                side = "sl" if "sr" in sides[a] else "sr"
+            sides[a].add(side)
+            if op == "setK":
+                toks.append("%s%d:K%d" % (side, a, rng.randrange(n["T"])))
+                n["L"] += 1
+            elif op == "setL":
+                toks.append("%s%d:L%d" % (side, a, rng.randrange(n["L"])))
+            else:
+                toks.append("%s%d:%s:%s" % (side, a, rng.choice("tg"), kstr(ks())))
+                n["L"] += 1
+        elif op == "it":
+            toks.append("it%d" % rng.randrange(n["A"]))
+        elif op == "kvi":
+            c = rng.choice(["kl", "kl", "vl", "il"])
+            toks.append("%s%d" % (c, rng.randrange(n["T"])))
+            n["L" if c == "kl" else "M"] += 1
+        elif op == "ml":
+            toks.append("ml%d:%s" % (rng.randrange(n["L"]), mut()))
+        elif op == "me":
+            m = mut()
+            toks.append("me%d:%s" % (rng.randrange(n["M"]), m))
+            n["E"] += m[0] in "ai"
+        elif op == "rl":
+            toks.append("rl%d" % rng.randrange(n["L"]))
+        elif op == "re":
+            toks.append("re%d" % rng.randrange(n["M"]))
+        else:
+            toks.append("q%d:%s" % (rng.randrange(n["T"]), query()))
+    # close: ask every KeyedTuple about its order and lookups, iterate every AddRemove
+    for t in range(n["T"]):
+        toks += ["q%d:K" % t, "q%d:I" % t, "q%d:V" % t] + ["q%d:gk%d" % (t, k) for k in range(nsym)]
+    toks += ["it%d" % a for a in range(n["A"])]
+    return toks
+
+
+def gen_heap_cases(ctx, rng):
+    cases = []
+    alpha = heap_alphabet()
+    # (1) every sequence of <= 2 (quick) / <= 3 (thorough, over fewer files) interaction operations after "two files and an
+    #     AddRemove exist", closed by the full set of questions to everything
+    files = [ks for n in range(0, 4) for ks in itertools.product(range(2), repeat=n)]
+    files.sort(key=lambda ks: (len(set(ks)) == len(ks), len(ks)))      # files with a repeated key first
+    second = lambda ks: list(reversed(ks)) + [2] + list(ks[:1])       # related second file: reversed, a new key, a repeat
+
+    def prefix(ks):
+        return ["kt:l:" + ",".join(map(str, ks)), "kt:t:" + ",".join(map(str, second(ks))), "ar"]
+    for ks in files:
+        for n in (0, 1, 2):
+            for mids in itertools.product(alpha, repeat=n):
+                c = heap_instantiate(prefix(ks), mids)
+                if c:
+                    cases.append(c)
+    if ctx.tier != "quick":
+        for ks in [(0, 1, 0), (1, 1), (0, 0, 1, 0)]:
+            for mids in itertools.product(alpha, repeat=3):
+                c = heap_instantiate(prefix(ks), mids)
+                if c:
+                    cases.append(c)
+    # (2) random longer sequences over the same alphabet
+    for _ in range(ctx.n(1500, 20000)):
+        ks = [rng.randrange(3) for _ in range(rng.randrange(1, 6))]
+        c = None
+        while c is None:
+            c = heap_instantiate(prefix(ks), [rng.choice(alpha) for _ in range(rng.randrange(3, 9))])
+        cases.append(c)
+    # (3) free histories: any number of objects of every kind
+    for _ in range(ctx.n(2500, 40000)):
+        cases.append(gen_heap_random(rng, rng.choice([10, 18, 30])))
+    return cases
+
+
+def run_round5(ctx, out, rng):
+    cases = gen_heap_cases(ctx, rng)
+    lines = ["c20.heap " + " ".join(t) for t in cases]
+    model = C.run_driver_parallel(lines) if ctx.model_ok else [None] * len(lines)
+    for idx, (toks, mo) in enumerate(zip(cases, model)):
+        kind = "str" if idx % 2 else "tuple"
+        obs = impl_heap(toks, kind)
+        canon = " ".join(o for _, o in obs)
+        out.evaluations += 1
+        handed = [i for i, t in enumerate(toks) if t[:2] in ("sl", "sr")]
+        later_q = bool(handed) and any(t[0] == "q" for t in toks[handed[0]:])
+        aliased_mut = any(t[:2] == "ml" for t in toks[handed[0]:]) if handed else False
+        out.count("heap.handover=%s,mutation_after=%s" % (bool(handed), aliased_mut))
+        if later_q and aliased_mut:
+            out.nontrivial.add(("hp", canon))
+        if len([s for s in out.samples if s.get("op") == "c20.heap"]) < 2 and later_q and aliased_mut and len(toks) < 40:
+            out.samples.append({"op": "c20.heap", "history": " ".join(toks), "result": canon})
+        bad = oracle_heap(toks, kind, obs)
+        if bad:
+            out.violations.append({"what": "interaction history (operation %d = %s): %s" % (bad[0], toks[bad[0]], bad[1]),
+                                   "input": {"history": toks[:bad[0] + 1], "keykind": kind}, "op": "hp"})
+        elif mo is not None and mo != canon:
+            out.disagreements.append({"op": "c20.heap", "history": " ".join(toks), "impl": canon, "model": mo})
+    return cases
+
+
+def run_round4(ctx, out, rng, ar_cases, hp_cases=()):
     from lib import pool
     # ---- the closed form with duplicates, natively, against the implementation (random pairs of the `ar` stream)
     dup_cases = [(l, r) for l, r, nodup in ar_cases if not nodup]
@@ -531,6 +1097,9 @@ def run_round4(ctx, out, rng, ar_cases):
         ks, qs, how = kt_cases[i]
         for kind in ("str", "tuple"):
             batch.append(["kt", ks, qs, kind, how])
+    for i in rng.sample(range(len(hp_cases)), min(len(hp_cases), ctx.n(150, 1500))):
+        for kind in ("str", "tuple"):
+            batch.append(["hp", hp_cases[i], kind])
     here = hs_eval(batch)
     chunk = 400
     chunks = [batch[i:i + chunk] for i in range(0, len(batch), chunk)]
@@ -564,7 +1133,17 @@ def run(ctx):
                 "list over 3 keys up to length 4/5, built from list/tuple/generator/KeyedTuple, queried TWICE by the full query set "
                 "(keys, absent key, every index, slices, unhashable, entity objects, keys/values/items/iter/len/concat) on ONE instance "
                 "+ random (non-trivial = duplicate keys); hashseed = samples of all three re-run under PYTHONHASHSEED 1, 2, 4242, random "
-                "with str and tuple keys, full outputs compared")
+                "with str and tuple keys, full outputs compared. Round 5: hp = INTERACTION histories over a heap of objects (several "
+                "KeyedTuples, AddRemoves, caller-owned key lists and entity lists; results handed over BY REFERENCE: "
+                "ar.set_left(kt.keys()), set_left(list) then the caller mutates the list, list(kt.keys()/values()/items()) then "
+                "mutated, ar.left mutated, KeyedTuple(list) then the list mutated, KeyedTuple(kt.values()/items()/kt+ku)): for every "
+                "file over 2 keys up to length 3 ALL sequences of <= 2 (thorough: <= 3 on three files with a repeated key) of 26 "
+                "interaction operations, each closed by every question to every object, + random sequences over the same alphabet "
+                "+ free random histories (up to 4 KeyedTuples, 3 AddRemoves, any lists); oracle by construction: every KeyedTuple "
+                "answer = closed form over the entities it was built from and = a fresh KeyedTuple's, every diff = the diff of the "
+                "current (or handed-over) contents and = a fresh AddRemove's (non-trivial = a list is mutated after a hand-over and "
+                "a KeyedTuple is queried afterwards; distinct observation strings); kt additionally: every ordered pair "
+                "(thorough: triple) of first queries on a fresh instance followed by a lookup of every key")
     rng = ctx.rng("c20")
     cases = []
     maxl = 4 if ctx.tier == "quick" else 5
@@ -635,7 +1214,8 @@ def run(ctx):
             out.disagreements.append({"op": "keyed", "keys": ks, "q": q, "impl": canon, "model": mo})
         if len(out.samples) < 6 and ks.count(q) > 1:
             out.samples.append({"op": "keyed", "keys": ks, "query": q, "result": canon})
-    run_round4(ctx, out, ctx.rng("c20.round4"), cases)
+    hp_cases = run_round5(ctx, out, ctx.rng("c20.round5"))
+    run_round4(ctx, out, ctx.rng("c20.round4"), cases, hp_cases)
     return out
 
 
@@ -656,6 +1236,10 @@ def replay(payload):
             ans = impl_kt(i["keys"], i["queries"], i["keykind"], i["how"])
             bad = oracle_kt(i["keys"], i["queries"], ans)
             res.append({"input": i, "result": " ".join(ans), "oracle": bad and "query %d: %s" % bad})
+        elif v.get("op") == "hp":
+            obs = impl_heap(i["history"], i["keykind"])
+            bad = oracle_heap(i["history"], i["keykind"], obs)
+            res.append({"input": i, "result": " ".join(o for _, o in obs), "oracle": bad and "operation %d: %s" % bad})
         elif v.get("op") == "hashseed":
             from lib import pool
             here = hs_eval([i["case"]])
